@@ -41,7 +41,11 @@ RULE = (
     "multi-edge; isolated nodes, singletons, int / gapped-int / str node labels, automatic / explicit edge IDs); kind 'random' = Hypergraph, all functions; "
     "kind 'directed' = DiHypergraph, to_bipartite_graph only. kind 'sequence': ONE network object (80% Hypergraph, 20% DiHypergraph) is queried with every function, queried again "
     "without an edit, then edited in place 2-4 times through the public API (add_node_to_edge / remove_node_from_edge(remove_empty=False) / remove_edge+add_edge(idx=same id) / "
-    "double_edge_swap keep the node- and edge-ID sets; add/remove edge, add/remove node change them) and queried again after every edit against graphs built from the CURRENT members(). one evaluation = one xgi return value compared with the independent construction. "
+    "double_edge_swap keep the node- and edge-ID sets; add/remove edge, add/remove node change them) and queried again after every edit against graphs built from the CURRENT members(). "
+    "kind 'scale': n = (11,16,24,33,47,60,85,120,170,249,250,251,260,300,380,470,600)[idx % 17] nodes, up to 400 small edges, flavour (labels, edge IDs, dense, one big edge of up to 30 nodes) "
+    "a deterministic function of idx; planted isolated nodes, a path of up to 40 nodes, triangles, wedge+triangle nodes, a hub of degree up to 30, singletons, a multi-edge, many components; "
+    "n <= 60: everything as for small inputs; n > 60: node_connected_component / single-source distances from <= 6 chosen sources (end of the planted path, isolated node, far end of the largest component, hub, 2 random), "
+    "the first two items of shortest_path_length, s in {1, 2, largest edge + 1}; plus a DiHypergraph of the same n for to_bipartite_graph. one evaluation = one xgi return value compared with the independent construction. "
     "distinct_nontrivial = distinct (class, node order, members) with at least one edge of size >= 2"
 )
 ASSUMPTIONS = [
@@ -52,6 +56,7 @@ ASSUMPTIONS = [
     "weights=None: absence of a 'weight' attribute is not demanded; node/edge attributes of the returned graphs are not compared except 'bipartite' (0 node / 1 edge) and 'weight'",
     "clustering coefficients are compared with tolerance 1e-9, normalized line-graph weights with 1e-12; distances exactly",
     "start states that fail the C01/C02 structural invariant are discarded and counted; a sequence stops when an edit leaves such a state (none observed)",
+    "scale kind: for n > 60 the all-pairs clauses (symmetry, infinity pattern) are only examined among the sampled sources; keys carry the size class (n>10 / n>60 / n>250) in the trigger class",
     "sequence kind: a return value may depend only on the current incidence structure, not on what was asked of the same object before; a sequence ends at the first monitor that fires",
 ]
 TECHNIQUE = "runtime monitoring: differential post-conditions against networkx on independently built expansion graphs"
@@ -83,19 +88,26 @@ def floors(tier):
         "line:links": 5000, "line:non-links": 3000, "line:normalized-weight<1": 300,
         "dag:links:all": 1000, "dag:links:immediate": 400, "dag:all-strictly-larger-than-immediate": 150,
         "dag:empirical-strictly-between": 20, "bip:directed:node-in-both-tail-and-head": 30,
+        "in:n<=2": 25, "in:no-edges": 15, "line:s>largest-edge": 3000,
     }
     for sh in SHAPES:
         f[f"shape:{sh}"] = 100
     scale = plan(tier)["random"] // 1500
     f = {k: v * scale for k, v in f.items()}
-    seq = {  # minima per 500 sequences (about 0.65 x the smallest value observed over seeds 0..4)
-        "seq:class:Hypergraph": 250, "seq:class:DiHypergraph": 60, "seq:second-call-evaluations": 700, "seq:evaluations-after-edit": 1000,
-        "seq:members-changed-with-same-id-sets": 550, "seq:components-changed-with-same-id-sets": 150, "seq:id-sets-changed": 300,
-        "seq:edit:add_node_to_edge": 200, "seq:edit:remove_node_from_edge": 130, "seq:edit:replace_edge": 200, "seq:edit:double_edge_swap": 60,
-        "seq:edit:add_edge": 90, "seq:edit:remove_edge": 95, "seq:edit:add_node": 30, "seq:edit:remove_node": 65,
+    seq = {  # minima per 500 sequences (at most 0.5 x the smallest value observed over seeds 0..15)
+        "seq:class:Hypergraph": 180, "seq:class:DiHypergraph": 45, "seq:second-call-evaluations": 500, "seq:evaluations-after-edit": 700,
+        "seq:members-changed-with-same-id-sets": 400, "seq:components-changed-with-same-id-sets": 110, "seq:id-sets-changed": 220,
+        "seq:edit:add_node_to_edge": 150, "seq:edit:remove_node_from_edge": 110, "seq:edit:replace_edge": 150, "seq:edit:double_edge_swap": 50,
+        "seq:edit:add_edge": 70, "seq:edit:remove_edge": 70, "seq:edit:add_node": 22, "seq:edit:remove_node": 45,
     }
     sscale = plan(tier)["sequence"] // 500
     f.update({k: v * sscale for k, v in seq.items()})
+    scl = {  # per pass over the 17 sizes of the scale kind; sizes and planted structure are deterministic functions of idx
+        "scale:11<=n<=60": 6, "scale:61<=n<=250": 5, "scale:n>250": 6, "scale:n>250:planted-triangles": 70, "scale:n>250:planted-wedges": 50,
+        "scale:61<=n<=250:planted-triangles": 25, "scale:11<=n<=60:planted-triangles": 6, "scale:pairs-at-distance>=10": 30, "scale:planted-big-edge>12": 3,
+    }
+    cscale = plan(tier)["scale"] // 17
+    f.update({k: v * cscale for k, v in scl.items()})
     return f
 
 
@@ -614,7 +626,7 @@ def check_encapsulation(c):
 
 
 # ---------------------------------------------------------------------------------
-def evaluate(mon, net, how, rng, phase=None, fresh=True):
+def evaluate(mon, net, how, rng, phase=None, fresh=True, hints=()):
     """Every function of the property on the CURRENT state of `net`; returns the number of monitors that fired."""
     c = Ctx(mon, net, how, phase)
     if snap.is_di(net):
@@ -636,7 +648,7 @@ def evaluate(mon, net, how, rng, phase=None, fresh=True):
         iso = [x for x in c.nodes if G.degree(x) == 0]
         big = max(part, key=len)
         ecc = nx.single_source_shortest_path_length(G, _srt(big)[0])
-        sample = list(dict.fromkeys(iso[:1] + [max(ecc, key=ecc.get), max(c.nodes, key=G.degree)] + rng.sample(c.nodes, 2)))
+        sample = list(dict.fromkeys(list(hints) + iso[:1] + [max(ecc, key=ecc.get), max(c.nodes, key=G.degree)] + rng.sample(c.nodes, 2)))
         svals = [1, 2, max((len(m) for m in mem.values()), default=0) + 1]
     if fresh:  # input classes actually produced
         if n <= 2:
@@ -815,7 +827,7 @@ def build_scaled(rng, idx):
     rng.shuffle(labels)
     free = labels[:]
     edges = []
-    planted = {"triangles": 0, "wedges": 0, "path-nodes": 0, "hub-degree": 0, "isolated": 0}
+    planted = {"triangles": 0, "wedges": 0, "path-nodes": 0, "hub-degree": 0, "isolated": 0, "big-edge>12": 0}
 
     def take(k):
         if len(free) < k:
@@ -833,6 +845,7 @@ def build_scaled(rng, idx):
         edges.append(path[i:i + w])
         i += w - 1
     planted["path-nodes"] = len(path)
+    planted["hints"] = path[:1]  # one end of the long path: a source with large distances
     for t in range(max(1, n // 30)):
         tri = take(3)
         if not tri:
@@ -863,8 +876,10 @@ def build_scaled(rng, idx):
         m_r = min(int(len(rest) * (1.5 if dense else 0.45)), MAX_SCALE_EDGES - len(edges) - 4)
         for _ in range(max(0, m_r)):
             edges.append(ops.rand_members(rng, rest, 2, 4))
-        if idx % 3 == 0:
-            edges.append(rng.sample(rest, min(len(rest), min(30, max(6, n // 6)))))
+        if idx % 3 == 0:  # one big edge with nested sub-edges (immediate, small, medium)
+            big = rng.sample(rest, min(len(rest), min(30, max(6, n // 6))))
+            edges += [big, big[:-1], big[:2], big[1:len(big) // 2 + 1]]
+            planted["big-edge>12"] = int(len(big) > 12)
     for x in rng.sample(labels, 2):
         edges.append([x])
     edges.append(list(rng.choice(edges)))  # a multi-edge
@@ -879,7 +894,9 @@ def build_scaled(rng, idx):
     else:
         for e in edges:
             H.add_edge(list(e))
+    hints = planted.pop("hints")
     desc = f"n={n} m={len(edges)} labels={lk} ids={'explicit' if explicit else 'auto'} dense={dense} planted={planted}"
+    planted["hints"] = hints
     return H, desc, planted
 
 
@@ -906,8 +923,9 @@ def run_scale(mon, idx, rng):
     mon.note(f"scale:{cls}")
     mon.note(f"scale:{cls}:planted-triangles", planted["triangles"])
     mon.note(f"scale:{cls}:planted-wedges", planted["wedges"])
+    mon.note("scale:planted-big-edge>12", planted["big-edge>12"])
     mon.note(f"scale:{cls}:edges", H.num_edges)
-    evaluate(mon, H, how, rng)
+    evaluate(mon, H, how, rng, hints=planted["hints"])
     D = build_scaled_di(rng, idx)
     if not snap.inv(D):
         evaluate(mon, D, how.replace("build_scaled(", "build_scaled_di(").replace(")[0]", ")") + "  # built after H from the same rng", rng)
